@@ -187,6 +187,7 @@ unsigned MessageBase::decode_group(GroupBase *grpbase, const unsigned short fnum
 	for (bool ok(true); ok && s_offset < fsize; )
 	{
 		unique_ptr<MessageBase> grp(grpbase->create_group(false)); // shallow create
+		const unsigned element_offset(s_offset);
 
 		for (unsigned pos(0); s_offset < fsize && (result = extract_element(dptr + s_offset, fsize - s_offset, tag, val));)
 		{
@@ -210,6 +211,9 @@ unsigned MessageBase::decode_group(GroupBase *grpbase, const unsigned short fnum
 			if (grp->_fp.is_group(tv, itr) && has_group_count(bf))
 				s_offset = grp->decode_group(grpbase, tv, from, s_offset, ignore);
 		}
+
+		if (s_offset == element_offset) // nothing could be extracted (malformed input): do not add empty elements forever
+			break;
 
 		const unsigned short missing(grp->_fp.find_missing());
 		if (missing)
